@@ -3,7 +3,7 @@
    specification (Spec.v: the denotation of the PLAIN composite the recipe describes) on the implementation's answer.
    Must not import Proofs/Props. *)
 From Coq Require Import List ZArith QArith Qabs Bool.
-Require Import QV.common.Util QV.C08.Model QV.C08.Spec.
+Require Import QV.common.Util QV.C08.Model QV.C08.Spec QV.C08.Hist.
 Import ListNotations.
 Open Scope Q_scope.
 
@@ -59,7 +59,7 @@ Definition check_corr (k : case) : bool :=
       end
   | CHist r calls answers =>
       match build r with
-      | OK w => list_eqb sres_eqb (map (fun ca => sres_of (get_sampled w (ca_c ca) (ca_ts ca))) calls) answers
+      | OK w => list_eqb sres_eqb (map sres_of (run_hist w (map (fun ca => (ca_c ca, ca_arr ca, ca_ts ca)) calls) [])) answers
       | Err _ => match answers with [] => true | _ => false end
       end
   | CCrash => false
